@@ -192,7 +192,7 @@ def run(ctx):
     # ---------------- clause 6: nothing read ahead is thrown away ----------------------------------------------------
     ctx.rule('C06.6-reader-identity', 'every socket read on the receive path is issued on the connection\'s own reader (a parameter or a field of self), never on a buffering adaptor '
              'created per call: bytes such an adaptor reads beyond the current frame would be dropped with it, i.e. the next message lost', floor=4)
-    from .c05 import read_calls, reader_identity, READ_FILES
+    from .c05 import read_calls, reader_identity, READ_FILES, write_discipline
     for B in P.all('edp_client'):
         if B.b['file'] not in READ_FILES:
             continue
@@ -201,6 +201,9 @@ def run(ctx):
             k = seen.get(m, 0) + 1
             seen[m] = k
             reader_identity(ctx, 'C06.6-reader-identity', B, bb, t, m, '%s:%s%s' % (B.path, m, '' if k == 1 else '#%d' % k))
+
+    ctx.rule('C06.6-no-unwrapped-buffer', 'no buffering adaptor around the socket is unwrapped on the receive path (bytes it already holds - the next message - would be lost); writes are complete-write primitives', floor=6)
+    write_discipline(ctx, 'C06.6-no-unwrapped-buffer')
 
     # ---------------- dependencies outside connection.rs -----------------------------------------------------------------
     # "every later frame is still delivered intact" with an atom cache: what one message adds to the cache must be there for the next
